@@ -252,6 +252,35 @@ def search_C06(seed):
     return None
 
 
+def search_C19(seed):
+    """construct_station_load_events on random report tuples: per station the reported load = sum of the charge events there"""
+    from nrel.hive.reporting.vehicle_event_ops import construct_station_load_events
+    from nrel.hive.reporting.reporter import Report, ReportType
+    rnd = random.Random(seed)
+    stations = tuple(mock_station_from_geoid(station_id=f"s{i}", geoid=rnd.choice(CELLS)) for i in range(3))
+    sim = mock_sim(stations=stations, sim_time=SimTime(600), sim_timestep_duration_seconds=60)
+    reports, want = [], {s.id: 0.0 for s in stations}
+    for _ in range(rnd.randint(0, 7)):
+        if rnd.random() < 0.7:
+            sid, e = rnd.choice(sorted(want)), rnd.choice([0.12, 0.5, 1.25, 3.0])
+            want[sid] += e
+            reports.append(Report(ReportType.VEHICLE_CHARGE_EVENT, {"station_id": sid, "vehicle_id": "v0", "energy": e, "energy_units": "kwh"}))
+        else:
+            reports.append(Report(ReportType.VEHICLE_MOVE_EVENT, {"vehicle_id": "v0", "distance_km": 1.0}))
+    out = construct_station_load_events(tuple(reports), sim)
+    got = {}
+    for r in out:
+        if r.report_type != ReportType.STATION_LOAD_EVENT or r.report["station_id"] in got:
+            return f"unexpected / duplicate station load report {r}"
+        got[r.report["station_id"]] = float(r.report["energy"])
+    if set(got) != set(want):
+        return f"stations reported {sorted(got)} != stations {sorted(want)}"
+    for sid in want:
+        if abs(got[sid] - want[sid]) > 1e-9:
+            return f"station {sid}: load reported {got[sid]} but its charge events sum to {want[sid]}"
+    return None
+
+
 _OSM = {}
 
 
@@ -313,11 +342,13 @@ def search_C13(seed):
 def main():
     pid, seed = sys.argv[1], int(sys.argv[2])
     n = int(sys.argv[3]) if len(sys.argv) > 3 else 150
-    if pid in ("C06", "C13"):
+    if pid in ("C06", "C13", "C19"):
+        fn_, what_ = {"C06": (search_C06, "traverse() over a random multi-link route"), "C13": (search_C13, "route() on an in-memory 4x4 street grid"),
+                      "C19": (search_C19, "construct_station_load_events on a random report tuple")}[pid]
         for k in range(n):
-            msg = (search_C06 if pid == "C06" else search_C13)(seed * 100003 + k)
+            msg = fn_(seed * 100003 + k)
             if msg:
-                print("traverse() over a random multi-link route, seed" if pid == "C06" else "route() on an in-memory 4x4 street grid, seed", seed * 100003 + k)
+                print(what_ + ", seed", seed * 100003 + k)
                 print("REPRODUCED", msg)
                 return 1
         print("not reproduced")
